@@ -25,7 +25,8 @@ RULE = (
     "state component exceeds a threshold; a minority of scenarios use the "
     "bundled Stuart-Landau, Lorenz and coupled-oscillator systems. Non-trivial = "
     "a fault actually fired during integration or the plant diverged by itself "
-    "(retry logic exercised); distinct = distinct scenario-document digests.")
+    "(retry logic exercised); distinct = distinct scenario-document digests."
+    ' Further batches: System.describe_system writes the results table of the simulations judged before (and again after the equations were replaced); two caller threads simulate at the same time under the line-event scheduler and each must get what it gets alone; starting states also arrive as int64/float32 arrays, tuples or from a generator over one re-used buffer.')
 COMPONENTS = {
     "real": ["run_ode, __IntegrationState.f, _is_ok (retry loop, interpolation)",
              "j_from_ode / __j_from_ode_compute, t_from_ode, diff_from_ode",
